@@ -517,7 +517,7 @@ theorem simple_sound (cx : Ctx code A s f rest c fa a B bs hd')
     have hflow := po.flow (f.ip + 1, { a with h := a.h - p + q }) (by simp)
     have hle := cx.hh
     refine (simple_spec code lim s i sp p q hse).mono' ?_ ?_ ?_
-    · rintro s' hst ⟨h1, h2, h3, h4, h5, h6⟩
+    · rintro s' hst ⟨h2, h3, h4, h5, h6⟩
       refine same (cx.intra (by rw [h3, cx.adv]) hflow (by simp only; omega) (by rw [h5, cx.mp]) (by rw [h4, cx.hd]) ?_)
       intro i' sp' n hi' hu hn
       -- the only way to fall through onto a dynamic-count instruction is from its `copyPush`
